@@ -90,29 +90,50 @@ end
 
 /-- registered interest according to the per-stream records (`streams[id].bySpace[space]`) -/
 def NodeSt.Reg (s : NodeSt) (sid : Nat) (space p : String) : Prop :=
-  ∃ r pats, nlookup sid s.streams = some r ∧ alookup space r.bySpace = some pats ∧ p ∈ pats
+  ∃ r, alookup sid s.streams = some r ∧ p ∈ r.pats space
 
-/-- **the three views agree**: the space tries (`remote`), the per-stream records (`streams`) and the
-stream tags of the pool describe one relation `(stream, space, pattern)`. -/
-structure NodeSt.Agree (s : NodeSt) : Prop where
+/-- the record holds `p` under `space` -/
+def StreamRec.has (r : StreamRec) (space p : String) : Bool := (r.pats space).contains p
+
+/-- number of stream records that hold `p` under `space` (what the trie refcount must be) -/
+def regCount (streams : List (Nat × StreamRec)) (space p : String) : Nat :=
+  streams.countP (fun e => e.2.has space p)
+
+/-- a stream record is well formed: spaces are distinct keys, every entry is a non-empty duplicate-free
+pattern list, and `total` is the number of patterns across spaces -/
+structure RecOK0 (r : StreamRec) : Prop where
+  keys : (r.bySpace.map Prod.fst).Nodup
+  entries : ∀ sp ps, (sp, ps) ∈ r.bySpace → ps.Nodup ∧ ps ≠ []
+  total : r.total = (r.bySpace.map (fun e => e.2.length)).sum
+
+/-- … and a record that is kept is not empty -/
+structure RecOK (r : StreamRec) : Prop extends RecOK0 r where
+  nonempty : r.bySpace ≠ []
+
+/-- the invariant without "every registered space has a trie" (that one is suspended inside
+`CloseSpace`, which deletes the trie first) -/
+structure NodeSt.AgreeCore (s : NodeSt) : Prop where
   poolNodup : (s.pool.map (·.sid)).Nodup
+  streamsNodup : (s.streams.map Prod.fst).Nodup
+  recOK : ∀ sid r, alookup sid s.streams = some r → RecOK r
   trieReach : ∀ space t, alookup space s.remote = some t → t.Reachable
-  trieCount : ∀ space t, alookup space s.remote = some t → ∀ p, (t.count p > 0 ↔ ∃ sid, s.Reg sid space p)
-  trieHas : ∀ sid space p, s.Reg sid space p → ∃ t, alookup space s.remote = some t
+  trieCount : ∀ space t, alookup space s.remote = some t → ∀ p, t.count p = regCount s.streams space p
+  trieLive : ∀ space t, alookup space s.remote = some t → t.size ≠ 0
   tags : ∀ st, st ∈ s.pool → ∀ tag, (tag ∈ st.tags ↔ ∃ space p, s.Reg st.sid space p ∧ tag = interestTag space p)
   inPool : ∀ sid space p, s.Reg sid space p → ∃ st, st ∈ s.pool ∧ st.sid = sid
   validReg : ∀ sid space p, s.Reg sid space p → validSpaceId space = true
+
+/-- **the three views agree**: the space tries (`remote`: refcount of a pattern = number of streams
+that registered it, no empty trie), the per-stream records (`streams`: well formed, none empty) and
+the stream tags of the pool describe one relation `(stream, space, pattern)`. -/
+structure NodeSt.Agree (s : NodeSt) : Prop extends NodeSt.AgreeCore s where
+  trieHas : ∀ sid space p, s.Reg sid space p → ∃ t, alookup space s.remote = some t
 
 /-- all interest bookkeeping is gone: no space trie, no stream record, no tag -/
 def NodeSt.cleanB (s : NodeSt) : Bool :=
   s.remote.isEmpty && s.streams.isEmpty && s.pool.all (·.tags.isEmpty)
 
 def NodeSt.Clean (s : NodeSt) : Prop := s.cleanB = true
-
-/-- no empty record is kept: every stream record holds a pattern, every space trie holds one -/
-structure NodeSt.NoEmpty (s : NodeSt) : Prop where
-  streams : ∀ sid r, nlookup sid s.streams = some r → ∃ space p, s.Reg sid space p
-  remote : ∀ space t, alookup space s.remote = some t → ∃ p, t.count p > 0
 
 /-- one serving-side step -/
 inductive NodeOp where
